@@ -22,10 +22,10 @@ components are appended before `sccReady` is sorted again, so they are invisible
 the comparison distinguishes distinct components.  `slices.SortFunc` is a parameter with its
 contract, as in Model/Sanitize.lean.
 
-The `fixed` flag: `compareNodeByName` compares non-integer features by `RawString` ONLY, so
-the regular field "#a" and the definition #a (same string table entry, different feature
-type) compare equal.  `fixed = false` is the code as it is; `fixed = true` is the one-line
-repair (tie → compare the feature type).
+The `fixed` flag: `fixed = true` is `compareNodeByName` as it is in the code since commit
+2c855f1: non-integer features are compared by `RawString` and, on a tie, by the feature type
+(the regular field "#a" and the definition #a share a string table entry).  `fixed = false` is
+the comparison before that commit (RawString only), kept for the historical witness.
 -/
 import CueVerif.Model.Sanitize
 namespace CueVerif.Toposort
@@ -40,7 +40,7 @@ inductive Label
   | named (typ : Nat) (s : Bytes)
 deriving DecidableEq, Repr, Inhabited
 
-/-- `compareNodeByName` -/
+/-- `compareNodeByName` (`fixed = true`: the code; `fixed = false`: before 2c855f1) -/
 def cmpLabel (fixed : Bool) : Label → Label → Ordering
   | .int a, .int b => cmpNat a b
   | .int _, .named _ _ => .lt
